@@ -70,6 +70,15 @@ class Project:
         path = self.p / name
         path.parent.mkdir(parents=True, exist_ok=True)
         t = self._tick()
+        if text == "<dir>":
+            # the user makes the name a directory of theirs
+            if path.is_symlink() or path.is_file():
+                os.unlink(path)
+            path.mkdir(exist_ok=True)
+            os.utime(path, (t, t))
+            return
+        if path.is_dir() and not path.is_symlink():
+            os.rmdir(path)
         if path.is_symlink() and not replace:
             # a name that is a (possibly dangling) symbolic link of the world: the user edits the file it points to
             with open(path, "w") as f:
@@ -206,7 +215,10 @@ class Project:
                 victim = self.p / op[1]
                 if victim.is_symlink() and op[1] in getattr(self.w, "symlinks", {}):
                     victim = Path(os.path.realpath(victim))     # the link is part of the world; the file behind it goes
-                os.unlink(victim)
+                if victim.is_dir() and not victim.is_symlink():
+                    os.rmdir(victim)
+                else:
+                    os.unlink(victim)
             except FileNotFoundError:
                 pass
             m.user_rm(op[1])
@@ -233,7 +245,9 @@ class Project:
             mk.append((X, bool(m.built.get(X)), bool(m.failed.get(X)), m.owner.get(X), m.kind_at_build.get(X),
                        tuple(sorted((d, mode, m.ver.get(d, 0) == sv) for d, (mode, sv) in m.seen.get(X, {}).items()))))
         dov = tuple(sorted(m.variant.items()))
-        return json.dumps([files, canon.db_key(self.p), mk, dov, sorted(m.interrupted)], sort_keys=True, default=str)
+        dirs = sorted(n for n in self.w.sources if (self.p / n).is_dir() and not (self.p / n).is_symlink())   # sources the user turned into directories
+        return json.dumps([files, canon.db_key(self.p), mk, dov, sorted(m.interrupted)] + ([dirs] if dirs else []),
+                          sort_keys=True, default=str)
 
 
 # ---------------------------------------------------------------------------
